@@ -113,4 +113,25 @@ PROPS = {
             sub("vmap_points", "c12_vario", 6000, 100000),
             sub("vmap_grid", "c12_vario", 6000, 100000),
         ]),
+    "C07": dict(
+        level="exploration",
+        rule=("model-based (stateful) testing with rapidcheck: histories of <=60 public editing operations (49 kinds: column/sample additions, deletions by "
+              "name/uid/index/locator/range, renamings, value assignments, locator assignments incl. list variants, selections, clone/copy/assign, "
+              "serialize->deserialize; ~12 % with stale uids, out-of-range indices, unknown names, wrong-size arrays) on a Db or DbGrid; a plain table "
+              "model in the harness is compared after EVERY step: counts of columns/samples/uids/active samples, unique names, name<->index<->uid<->(role,rank) "
+              "all address bit-identical values, ranks consecutive, no column in two roles, no role on a deleted uid, untouched cells unchanged, invalid "
+              "operations without effect; non-trivial = an effective column deletion followed later by an operation addressed by index/uid/role; "
+              "distinct = hash of the case text"),
+        assumptions=["names are regular-expression patterns for the library: only names matching themselves alone are used",
+                     "locatorIndex >= 0 replaces the holder of that rank, < 0 appends after the column has left its previous role; ranks beyond the count only in db_gaps (memory safety only)",
+                     "unique locators (sel, w, code...) are kept to <= 1 column by construction",
+                     "useSel=true only when the selection column is 0/1(/NA)-valued; NA masks the sample",
+                     "name de-duplication is checked as a predicate (unique, requested name + version suffix), not one spelling",
+                     "reloaded random columns are compared to 1e-13 relative (15 digits in the file)"],
+        subs=[
+            sub("db_seq", "c07_db", 3000, 150000),
+            sub("grid_seq", "c07_db", 2000, 80000),
+            sub("db_gaps", "c07_db", 1500, 50000),
+            sub("db_hazard", "c07_db", 1000, 20000),
+        ]),
 }
